@@ -11,6 +11,7 @@ use crate::gateway::GatewayBinder;
 use crate::probe::dry::Dry;
 use crate::probe::faketoken::FakeToken;
 use crate::probe::receivers::AcceptingApp;
+use crate::probe::erroring::ErrApp;
 use crate::probe::trapping::TrappingApp;
 use serde_json::{json, Value as J};
 use soroban_sdk::vec as svec;
@@ -103,6 +104,8 @@ impl ItsBinder {
         b.g.cx.bind("app", &app);
         let trap = env.register(TrappingApp, ());
         b.g.cx.bind("trap", &trap);
+        let errapp = env.register(ErrApp, ());
+        b.g.cx.bind("errapp", &errapp);
         let admin = b.g.cx.addr("tokadmin");
         b.gas_token = env.register_stellar_asset_contract_v2(admin.clone()).address();
         env.mock_all_auths();
@@ -117,6 +120,14 @@ impl ItsBinder {
             let addr = if c == "fk" {
                 let a = env.register(FakeToken, ());
                 a
+            } else if c == "itk" {
+                // an interchain token built from /repo's source (NOT the pinned wasm), administered by a third party
+                let meta = if b.inst["Metas"].get("itkMeta").is_some() {
+                    b.token_metadata("itkMeta")
+                } else {
+                    soroban_token_sdk::metadata::TokenMetadata { decimal: 7, name: SStr::from_str(&env, "Source Token"), symbol: SStr::from_str(&env, "SRC") }
+                };
+                env.register(interchain_token::InterchainToken, (admin.clone(), None::<Address>, BytesN::<32>::from_array(&env, &[9u8; 32]), meta))
             } else {
                 env.register_stellar_asset_contract_v2(admin.clone()).address()
             };
